@@ -331,6 +331,14 @@ func checkC08(c CaseC08, info *Info) *Failure {
 		return failf("receiver-modified", "map %s became %s", js, canon(subject))
 	}
 	info.ClassIf(len(depths) >= 2, "key at >=2 depths")
+	if f := staleAfterChange(subject, "ValuesForKey/PathsForKey("+c.Key+")", func(v mxj.Map) string {
+		vs, err := v.ValuesForKey(c.Key)
+		ps := v.PathsForKey(c.Key)
+		sort.Strings(ps)
+		return fmt.Sprint(sortedCanon(vs), err, ps, len(strings.Split(v.PathForKeyShortest(c.Key), ".")))
+	}); f != nil {
+		return f
+	}
 	info.ClassIf(listed, "key inside a list")
 	info.ClassIf(hasListInList(c.Map), "list-in-list map")
 	info.ClassIf(c.Key != "*" && lilOnPathToKey(c.Map, c.Key, false), "key below a list nested in a list")
